@@ -21,16 +21,27 @@
 (*   links      registered (object, node) pairs not yet processed           *)
 (*   linked     objects whose Decl has been filled in                       *)
 (*                                                                          *)
+(*   com[n]     node n carries comment decorations                          *)
+(*   pending    comments collected while nodes are converted                *)
+(*   fileComs   the comments handed to the restored file (what is printed)  *)
+(*                                                                          *)
+(* Converting a node also collects its comments (they are rendered through  *)
+(* the file's comment list).  The list is handed to the file when the file  *)
+(* has been rendered, BEFORE the pass: what the pass converts afterwards is *)
+(* not part of the file and its comments must not be printed with it.       *)
+(*                                                                          *)
 (* Variant "worklist": the pass runs until no link is left.                 *)
 (* Variant "snapshot": the pass ranges over the links (a Go map) while      *)
 (* links are added to it: an entry added during the iteration may or may    *)
 (* not be produced, so each new link is nondeterministically dropped.       *)
+(* Variant "lateComments": the comment list is handed over after the pass   *)
+(* (three seeded changes of round 11 did exactly this).                     *)
 (***************************************************************************)
 EXTENDS Integers, Sequences, FiniteSets, TLC
 
-CONSTANTS N, M, Variant
-VARIABLES par, objOf, declOf, memoN, memoO, links, linked, phase
-vars == <<par, objOf, declOf, memoN, memoO, links, linked, phase>>
+CONSTANTS N, M, Variant, Coms      \* Coms = FALSE: no node carries a comment (the object-graph part alone)
+VARIABLES par, objOf, declOf, com, memoN, memoO, links, linked, phase, pending, fileComs
+vars == <<par, objOf, declOf, com, memoN, memoO, links, linked, phase, pending, fileComs>>
 
 Nodes == 1..N
 Objs == 1..M
@@ -41,17 +52,22 @@ Sub(n) == {n} \cup UNION {Sub(c) : c \in Kids(n)}
 Init == /\ par \in {p \in [Nodes -> 0..(N - 1)] : p[1] = 0 /\ \A i \in 2..N : p[i] < i}
         /\ objOf \in [Nodes -> 0..M]
         /\ declOf \in [Objs -> Nodes]
+        /\ com \in (IF Coms THEN [Nodes -> BOOLEAN] ELSE {[n \in Nodes |-> FALSE]})
         /\ memoN = {} /\ memoO = {} /\ links = {} /\ linked = {} /\ phase = "render"
+        /\ pending = {} /\ fileComs = {}
 
 \* restoreNode(n): the whole subtree in one step (the order inside does not matter here); every
 \* object met for the first time registers its link
 NewNodes(n) == Sub(n) \ memoN
 NewObjs(n) == {objOf[x] : x \in NewNodes(n)} \ ({0} \cup memoO)
 NewLinks(n) == {<<o, declOf[o]>> : o \in NewObjs(n)}
+NewComs(n) == {x \in NewNodes(n) : com[x]}
 
 Render == /\ phase = "render" /\ phase' = "post"
           /\ memoN' = memoN \cup NewNodes(1) /\ memoO' = memoO \cup NewObjs(1) /\ links' = NewLinks(1)
-          /\ UNCHANGED <<par, objOf, declOf, linked>>
+          /\ pending' = NewComs(1)
+          /\ fileComs' = IF Variant = "lateComments" THEN {} ELSE NewComs(1)
+          /\ UNCHANGED <<par, objOf, declOf, com, linked>>
 
 \* one iteration of the pass after rendering: a node of the file is found in the memo, any other
 \* node is converted now
@@ -59,12 +75,15 @@ Post == /\ phase = "post" /\ links # {}
         /\ \E l \in links :
              /\ memoN' = memoN \cup NewNodes(l[2]) /\ memoO' = memoO \cup NewObjs(l[2])
              /\ linked' = linked \cup {l[1]}
+             /\ pending' = pending \cup NewComs(l[2])
              /\ IF Variant = "snapshot"
                 THEN \E kept \in SUBSET NewLinks(l[2]) : links' = (links \ {l}) \cup kept
                 ELSE links' = (links \ {l}) \cup NewLinks(l[2])
-        /\ UNCHANGED <<par, objOf, declOf, phase>>
+        /\ UNCHANGED <<par, objOf, declOf, com, phase, fileComs>>
 
-Finish == phase = "post" /\ links = {} /\ phase' = "done" /\ UNCHANGED <<par, objOf, declOf, memoN, memoO, links, linked>>
+Finish == /\ phase = "post" /\ links = {} /\ phase' = "done"
+          /\ fileComs' = IF Variant = "lateComments" THEN pending ELSE fileComs
+          /\ UNCHANGED <<par, objOf, declOf, com, memoN, memoO, links, linked, pending>>
 Next == Render \/ Post \/ Finish
 Spec == Init /\ [][Next]_vars
 
@@ -77,4 +96,6 @@ Reach(ns, os) ==
       ns2 == ns \cup UNION {Sub(declOf[o]) : o \in os2}
   IN IF os2 = os /\ ns2 = ns THEN os ELSE Reach(ns2, os2)
 Complete == phase = "done" => memoO = Reach(Sub(1), {})
+\* what is printed with the file are the comments of the file's own nodes, nothing from outside it
+OnlyFileComments == phase = "done" => fileComs = {x \in Sub(1) : com[x]}
 =============================================================================
